@@ -26,7 +26,14 @@ try:
     if b.returncode != 0:
         print('{"found": false, "replay_build_failed": true}')
         sys.exit(0)
-    r = subprocess.run([os.path.join(env["CARGO_TARGET_DIR"], "release", "vx-replay"), pat], capture_output=True, text=True, timeout=900)
+    if pat.startswith("C20"):
+        # the `varlink` binary of the tree under test (own target dir; the workspace's dependencies are vendored in the cargo registry)
+        tdir = os.path.join(build, "cli-target")
+        c = subprocess.run(["cargo", "build", "--release", "--offline", "-q", "-p", "varlink-cli"], cwd=repo,
+                           env=dict(env, CARGO_TARGET_DIR=tdir), capture_output=True, text=True, timeout=1500)
+        if c.returncode == 0:
+            env["VX_CLI_BIN"] = os.path.join(tdir, "release", "varlink")
+    r = subprocess.run([os.path.join(env["CARGO_TARGET_DIR"], "release", "vx-replay"), pat], env=env, capture_output=True, text=True, timeout=900)
     sys.stdout.write(r.stdout)
 except subprocess.TimeoutExpired:
     print('{"found": false, "replay_timeout": true}')
